@@ -409,3 +409,57 @@ Proof.
   induction F as [|c pre C F IH]; intros start; [reflexivity|].
   cbn [app length]. rewrite parse_lines_comment_shift by exact C. rewrite IH. f_equal. lia.
 Qed.
+
+(* (4) totality: which host exceptions the model can report at all *)
+Lemma classify_host line k w : classify line = ROk k -> kind_host k w -> w = U "ValueError".
+Proof.
+  unfold classify.
+  repeat (match goal with
+          | |- context [match rxm ?r ?l with _ => _ end] => destruct (rxm r l) as [|? ?|]
+          end; [ | | discriminate ]).
+  all: intros H; try (inversion H; subst k; clear H; cbn [kind_host]; try contradiction; try apply parse_expression_host).
+  - unfold unesc in H. destruct (re_sub _ _ _ _); inversion H. contradiction.
+  - destruct (gtext line c R_SCRIPT_RETURN__expr); [contradiction | apply parse_expression_host].
+  - destruct (gtext line c R_SCRIPT_JUMP__expr); [contradiction | apply parse_expression_host].
+Qed.
+
+Lemma pfinish_not_host ls ps start w : pfinish ls ps start <> RHost w.
+Proof. unfold pfinish. destruct (l_cont ls); [|discriminate]. destruct (ps_frames ps); [|discriminate]. destruct (ps_fn ps); discriminate. Qed.
+
+Theorem parse_script_host chunks start w :
+  parse_script chunks start = RHost w ->
+  exists lines i line k,
+    split_chunks chunks = ROk lines /\ In (i, line) (fst (llines lines 0 ls_init)) /\ classify line = ROk k /\
+    ((kind_host k w /\ w = U "ValueError") \/ (k = KEndIf /\ w = U "model: pending jump not found")).
+Proof.
+  rewrite parse_script_lines. destruct (split_chunks_cases chunks) as [[lines E]|E]; rewrite E; [|discriminate].
+  rewrite parse_lines_view.
+  destruct (llines_bounds lines 0 ls_init lok_init) as (_ & _ & B3).
+  destruct (llines lines 0 ls_init) as [lls t] eqn:L. cbn [fst snd] in *.
+  destruct (pfold lls ps_init start) as [ps'| |w1|] eqn:P; try discriminate.
+  - destruct t as [ls'|r]; [intros H; exfalso; eapply pfinish_not_host; exact H|].
+    rewrite (B3 r eq_refl). discriminate.
+  - intros H. inversion H; subst w1. apply pfold_host in P. destruct P as (i & line & k & A & B & C).
+    exists lines, i, line, k. split; [reflexivity|]. rewrite L. split; [exact A|]. split; [exact B|].
+    destruct C as [C|C]; [left; split; [exact C | eapply classify_host; eassumption] | right; exact C].
+Qed.
+
+(* label_defs.pop() on an empty list (IndexError) cannot happen *)
+Corollary parse_script_no_index_error chunks start : parse_script chunks start <> RHost (U "IndexError").
+Proof.
+  intros H. apply parse_script_host in H. destruct H as (_ & _ & _ & _ & _ & _ & _ & [[_ H]|[_ H]]); vm_compute in H; discriminate.
+Qed.
+
+(* (5) caret, for every error parse_script can raise *)
+Theorem parse_script_caret chunks start e :
+  parse_script chunks start = RErr e ->
+  exists header shown k,
+    format_perr e = header ++ [10%N] ++ shown ++ [10%N] ++ repeat 32%N k ++ [94%N; 10%N] /\
+    k <= length shown /\
+    nth_error shown k = nth_error (e_line e) (e_col e - 1).
+Proof.
+  intros H. apply parse_script_position in H. destruct H as (lines & _ & (C & _)).
+  unfold format_perr.
+  destruct (perr_message_caret (e_msg e) (e_line e) (Z.of_nat (e_col e)) (option_map Z.of_nat (e_lineno e))) as (h & s & k & A & B & D); [lia|].
+  exists h, s, k. split; [exact A|]. split; [exact B|]. rewrite D. f_equal. lia.
+Qed.
